@@ -222,6 +222,33 @@ def run_case(case: dict) -> dict:
             if any(not core.close(first[k], exp_ic[k]) for k in exp_ic):
                 viols.append(core.viol("simulation does not start from resolved initial conditions", None, got=first, expected=exp_ic, spec=spec))
             counters["simulation start compared"] = 1
+            # result views were read (they re-apply each segment's parameters to the model and restore them); afterwards
+            # a parameter the assignments name is re-declared: assignment-defined values follow the new declaration
+            try:
+                _ = res.fluxes
+                _ = res.variables
+            except Exception:  # noqa: BLE001, S110
+                pass
+            cur_spec = spec2 if counters.get("initial value re-declared after resolution") else spec
+            plain_p = [c for c in cur_spec["components"] if c["kind"] == "parameter" and "value" in c]
+            if plain_p:
+                tp = rng.choice(plain_p)["name"]
+                spec3 = copy.deepcopy(cur_spec)
+                for c in spec3["components"]:
+                    if c["kind"] == "parameter" and c["name"] == tp:
+                        c["value"] = round(c["value"] * rng.choice([0.5, 2.0, 3.0]) + 0.125, 4)
+                        newp = c["value"]
+                ref3 = rm.Ref(spec3)
+                ct.register(model, ref3)
+                model.update_parameter(tp, newp)
+                a3 = model.get_args()  # contract: every name against ref3 at t = 0
+                for k, v in ref3.parameter_values().items():
+                    if not core.close(a3[k], v):
+                        viols.append(core.viol("after reading result views and re-declaring a parameter, an assignment-defined parameter keeps its old value", None, parameter=tp, value=newp, name=k, got=float(a3[k]), expected=v, spec=spec))
+                ic3, exp3 = dict(model.get_initial_conditions()), ref3.initial_conditions()
+                if any(not core.close(ic3[k], exp3[k]) for k in exp3):
+                    viols.append(core.viol("after reading result views and re-declaring a parameter, initial conditions differ from t=0 resolution", None, parameter=tp, value=newp, got=ic3, expected=exp3, spec=spec))
+                counters["parameter re-declared after result views were read"] = 1
     except Exception as e:  # noqa: BLE001
         import traceback
 
